@@ -47,6 +47,7 @@ func fail(format string, a ...any) {
 }
 
 type rw struct {
+	inList  bool
 	fset    *token.FileSet
 	n       int
 	usedVrt bool
@@ -97,6 +98,7 @@ func (r *rw) walk(n ast.Node) {
 			case f.Type() == exprType:
 				f.Set(reflect.ValueOf(r.expr(f.Interface().(ast.Expr))))
 			case f.Type() == stmtType:
+				r.inList = false // Init / Post / Else / labelled statement: a block cannot stand here
 				f.Set(reflect.ValueOf(r.stmt(f.Interface().(ast.Stmt))))
 			case f.Type().Implements(nodeType):
 				if nn, ok := f.Interface().(ast.Node); ok {
@@ -126,6 +128,7 @@ func (r *rw) walk(n ast.Node) {
 					}
 				case e.Type() == stmtType:
 					if !e.IsNil() {
+						r.inList = true
 						e.Set(reflect.ValueOf(r.stmt(e.Interface().(ast.Stmt))))
 					}
 				default:
@@ -193,7 +196,92 @@ func callsExtSync(n ast.Node) (name string) {
 	return
 }
 
+// heapish: an assignable expression that is not a plain identifier - a field, an
+// element, a dereference: memory other goroutines may reach.
+func heapish(e ast.Expr) bool {
+	switch x := e.(type) {
+	case *ast.ParenExpr:
+		return heapish(x.X)
+	case *ast.SelectorExpr, *ast.IndexExpr, *ast.StarExpr:
+		return true
+	}
+	return false
+}
+
+// pure: no calls, receives or function literals - evaluating it twice is harmless.
+func pure(e ast.Expr) bool {
+	ok := true
+	ast.Inspect(e, func(n ast.Node) bool {
+		switch x := n.(type) {
+		case *ast.CallExpr, *ast.FuncLit:
+			ok = false
+		case *ast.UnaryExpr:
+			if x.Op == token.ARROW {
+				ok = false
+			}
+		}
+		return ok
+	})
+	return ok
+}
+
+var opOf = map[token.Token]token.Token{token.ADD_ASSIGN: token.ADD, token.SUB_ASSIGN: token.SUB, token.MUL_ASSIGN: token.MUL, token.QUO_ASSIGN: token.QUO,
+	token.REM_ASSIGN: token.REM, token.AND_ASSIGN: token.AND, token.OR_ASSIGN: token.OR, token.XOR_ASSIGN: token.XOR, token.SHL_ASSIGN: token.SHL,
+	token.SHR_ASSIGN: token.SHR, token.AND_NOT_ASSIGN: token.AND_NOT}
+
+// plainWrite: writes to fields, elements and dereferences get a conditional
+// scheduling point (vrt.Plain, active only in scenarios that ask for it) in front;
+// a read-modify-write (x.f++, x.f += v) is split into read, point, write, which is
+// what two goroutines doing it without synchronisation can interleave as.
+func (r *rw) plainWrite(s ast.Stmt) ast.Stmt {
+	mkPoint := func() ast.Stmt { return &ast.ExprStmt{X: r.vrt("Plain")} }
+	switch x := s.(type) {
+	case *ast.IncDecStmt:
+		if !heapish(x.X) || !pure(x.X) {
+			return nil
+		}
+		t := r.tmp("pw")
+		op := token.ADD
+		if x.Tok == token.DEC {
+			op = token.SUB
+		}
+		return &ast.BlockStmt{List: []ast.Stmt{
+			&ast.AssignStmt{Lhs: []ast.Expr{t}, Tok: token.DEFINE, Rhs: []ast.Expr{x.X}},
+			mkPoint(),
+			&ast.AssignStmt{Lhs: []ast.Expr{x.X}, Tok: token.ASSIGN, Rhs: []ast.Expr{&ast.BinaryExpr{X: t, Op: op, Y: &ast.BasicLit{Kind: token.INT, Value: "1"}}}},
+		}}
+	case *ast.AssignStmt:
+		if x.Tok == token.DEFINE {
+			return nil
+		}
+		any := false
+		for _, l := range x.Lhs {
+			if heapish(l) {
+				any = true
+			}
+		}
+		if !any {
+			return nil
+		}
+		if op, isOp := opOf[x.Tok]; isOp && len(x.Lhs) == 1 && len(x.Rhs) == 1 && pure(x.Lhs[0]) && pure(x.Rhs[0]) {
+			t := r.tmp("pw")
+			return &ast.BlockStmt{List: []ast.Stmt{
+				&ast.AssignStmt{Lhs: []ast.Expr{t}, Tok: token.DEFINE, Rhs: []ast.Expr{x.Lhs[0]}},
+				mkPoint(),
+				&ast.AssignStmt{Lhs: []ast.Expr{x.Lhs[0]}, Tok: token.ASSIGN, Rhs: []ast.Expr{&ast.BinaryExpr{X: t, Op: op, Y: &ast.ParenExpr{X: x.Rhs[0]}}}},
+			}}
+		}
+		return &ast.BlockStmt{List: []ast.Stmt{mkPoint(), r.stmt1(s)}}
+	}
+	return nil
+}
+
 func (r *rw) stmt(s ast.Stmt) ast.Stmt {
+	inList := r.inList
+	r.inList = false
+	if !inList {
+		return r.stmt1(s)
+	}
 	wrap := ""
 	switch x := s.(type) {
 	case *ast.ExprStmt, *ast.ReturnStmt:
@@ -208,6 +296,9 @@ func (r *rw) stmt(s ast.Stmt) ast.Stmt {
 			&ast.ExprStmt{X: r.vrt("ExtCall", &ast.BasicLit{Kind: token.STRING, Value: strconv.Quote(wrap)})},
 			r.stmt1(s),
 		}}
+	}
+	if b := r.plainWrite(s); b != nil {
+		return b
 	}
 	return r.stmt1(s)
 }
